@@ -80,15 +80,22 @@ def run(ctx, model_ok):
         if k < 0.25:
             n2, u2 = count(rng), rng.choice(ORDER)
             op = rng.choice("+-")
-            text = f"{text} {op} {n2} {word(rng, u2, n2)}"
+            # the operator with blanks around it, or glued to the count ('3 months -1 month')
+            glue = rng.random() < 0.4
+            text = f"{text} {op}{n2} {word(rng, u2, n2)}" if glue else f"{text} {op} {n2} {word(rng, u2, n2)}"
             total = total + unit_secs(n2, u2) if op == "+" else total - unit_secs(n2, u2)
             kind = "arith"
+            if glue and rng.random() < 0.3:
+                lang_glue_tr = True
+                text = " ".join(f"{n} {rng.choice(TR_IN[u])}" for n, u in parts) + f" {op}{n2} {rng.choice(TR_IN[u2])}"
+            else:
+                lang_glue_tr = False
         elif k < 0.5:
             tgt = rng.choice(["second", "minute", "hour", "day", "week"])
             text = f"{text} {rng.choice(['as', 'to', 'in', 'into'])} {word(rng, tgt, 2)}"
             total = (abs(total) // LEN[tgt]) * LEN[tgt]
             kind = "as"
-        lang = "en"
+        lang = "tr" if (kind == "arith" and lang_glue_tr) else "en"
         if kind == "seq" and rng.random() < 0.25:
             # the same in Turkish (the language has no plural forms and no conversion word)
             lang = "tr"
